@@ -273,7 +273,7 @@ static int recv_events(m_ctx_t *c, int timeout) {
                         /* No more events wanted: release its poll data now, the event may be kept by the user past the module's life */
                         poll_set_new_evt(&c->ppriv, p, RM);
                         m_bst_remove(mod->srcs[p->type], p);
-                    } else {
+                    } else if (m_map_get(mod->subscriptions, p->ps_src.topic) == p) { // not unsubscribed or replaced meanwhile
                         m_map_remove(mod->subscriptions, p->ps_src.topic);
                     }
                 }
